@@ -341,21 +341,24 @@ inductive CharRes where
   | err (utf : Bool)
 deriving Repr, DecidableEq
 
+/-- the first one or two `chars.next()` calls: the character or escape written -/
+def lexCharFirst (utfErr : Bool) (rest : Bytes) : CharRes :=
+  match decodeChar rest with
+  | none => .err utfErr
+  | some (c, n) =>
+    if c == 92 then
+      match decodeChar (rest.drop n) with
+      | none => .err utfErr
+      | some (e, _) =>
+        if e == 116 then .ok 2 9 else if e == 110 then .ok 2 10 else if e == 114 then .ok 2 13
+        else if e == 34 || e == 39 || e == 92 then .ok 2 e
+        else .err false
+    else if c == 9 || (decide (32 ≤ c) && decide (c ≤ 126)) || decide (128 ≤ c) then .ok n c
+    else .err false
+
+/-- … `.and_then(|v| match chars.next() {…})`: the closing quote -/
 def lexCharBody (utfErr : Bool) (rest : Bytes) : CharRes :=
-  let first : CharRes :=
-    match decodeChar rest with
-    | none => .err utfErr
-    | some (c, n) =>
-      if c == 92 then
-        match decodeChar (rest.drop n) with
-        | none => .err utfErr
-        | some (e, _) =>
-          if e == 116 then .ok 2 9 else if e == 110 then .ok 2 10 else if e == 114 then .ok 2 13
-          else if e == 34 || e == 39 || e == 92 then .ok 2 e
-          else .err false
-      else if c == 9 || (decide (32 ≤ c) && decide (c ≤ 126)) || decide (128 ≤ c) then .ok n c
-      else .err false
-  match first with
+  match lexCharFirst utfErr rest with
   | .err u => .err u
   | .ok n c =>
     match decodeChar (rest.drop n) with
@@ -413,6 +416,53 @@ def pushSlice (d : Bytes) (esc : Bytes) (a b : Nat) : Option Bytes :=
   | none => none
   | some t => some (esc ++ t)
 
+/-- outcome of one escape sequence -/
+inductive EscRes where
+  | next (pos : Nat) (escaped : Bytes)   -- continue the loop
+  | bad
+  | eof
+  | panic
+deriving Repr, DecidableEq
+
+/-- `match self.data.as_bytes()[pos + 1] {…}; pos += 2;` — `pos1` is the index of the backslash and at
+least three bytes remain from there -/
+def strEscape (d : Bytes) (pos1 : Nat) (esc1 : Bytes) : EscRes :=
+  match d[pos1 + 1]? with
+  | none => .panic
+  | some eb =>
+    let e := eb.toNat
+    if e == 48 then .next (pos1 + 2) (esc1 ++ [0])
+    else if e == 116 then .next (pos1 + 2) (esc1 ++ [9])
+    else if e == 110 then .next (pos1 + 2) (esc1 ++ [10])
+    else if e == 114 then .next (pos1 + 2) (esc1 ++ [13])
+    else if e == 34 || e == 39 || e == 92 then .next (pos1 + 2) (esc1 ++ [eb])
+    else if e == 117 then
+      match d[pos1 + 2]? with
+      | none => .panic
+      | some gb =>
+        if gb.toNat == 123 then
+          match sliceFrom d (pos1 + 3) with
+          | none => .panic
+          | some r3 =>
+          match position (fun b => b.toNat == 125) (r3.take 7) with
+          | none => .eof
+          | some end_ =>
+          match slice d (pos1 + 3) (pos1 + 3 + end_) with
+          | none => .panic
+          | some text =>
+          match u32FromHex text with
+          | none => .bad
+          | some v =>
+            -- `.filter(|_| self.data.as_bytes()[pos + 3] != b'+')`
+            match d[pos1 + 3]? with
+            | none => .panic
+            | some pb =>
+              if pb.toNat == 43 then .bad
+              else if isScalar v then .next (pos1 + end_ + 2 + 2) (esc1 ++ encodeChar v)
+              else .bad
+        else .bad
+    else .bad
+
 /-- the `loop` of the string arm; `d = self.data` -/
 def strLoop (d : Bytes) : Nat → Nat → Bytes → StrRes
   | 0, _, _ => .fuel
@@ -437,41 +487,11 @@ def strLoop (d : Bytes) : Nat → Nat → Bytes → StrRes
         if d.length < pos1 then .panic               -- `self.data.len() - pos`
         else if d.length - pos1 < 3 then .bad
         else
-        match d[pos1 + 1]? with
-        | none => .panic
-        | some eb =>
-          let e := eb.toNat
-          if e == 48 then strLoop d f (pos1 + 2) (esc1 ++ [0])
-          else if e == 116 then strLoop d f (pos1 + 2) (esc1 ++ [9])
-          else if e == 110 then strLoop d f (pos1 + 2) (esc1 ++ [10])
-          else if e == 114 then strLoop d f (pos1 + 2) (esc1 ++ [13])
-          else if e == 34 || e == 39 || e == 92 then strLoop d f (pos1 + 2) (esc1 ++ [eb])
-          else if e == 117 then
-            match d[pos1 + 2]? with
-            | none => .panic
-            | some gb =>
-              if gb.toNat == 123 then
-                match sliceFrom d (pos1 + 3) with
-                | none => .panic
-                | some r3 =>
-                match position (fun b => b.toNat == 125) (r3.take 7) with
-                | none => .eof
-                | some end_ =>
-                match slice d (pos1 + 3) (pos1 + 3 + end_) with
-                | none => .panic
-                | some text =>
-                match u32FromHex text with
-                | none => .bad
-                | some v =>
-                  -- `.filter(|_| self.data.as_bytes()[pos + 3] != b'+')`
-                  match d[pos1 + 3]? with
-                  | none => .panic
-                  | some pb =>
-                    if pb.toNat == 43 then .bad
-                    else if isScalar v then strLoop d f (pos1 + end_ + 2 + 2) (esc1 ++ encodeChar v)
-                    else .bad
-              else .bad
-          else .bad
+          match strEscape d pos1 esc1 with
+          | .next pos2 esc2 => strLoop d f pos2 esc2
+          | .bad => .bad
+          | .eof => .eof
+          | .panic => .panic
       else
         if c != 34 then .panic                        -- `assert_eq!(c, b'"')`
         else
